@@ -10,6 +10,7 @@ package expr
 //@ func hashUserType
 //@   params ut ignoreFields ignoreNames ignoreTags seen
 //@   property C13 C09
+//@   locals h:string att:*expr.AttributeExpr k:string
 //@   opt maprange deterministic
 //@   requires ut != nil
 //@   let att = ptr(*AttributeExpr, old(select(utAttr, ut)))
@@ -18,7 +19,6 @@ package expr
 
 //@ func hashObject
 //@   params o ignoreFields ignoreNames ignoreTags seen
-//@   locals ph
 //@   property C13 C09
 //@   opt maprange deterministic
 //   -- the attributes are visited in ascending name order whatever the declaration order (the slice ranged
@@ -35,8 +35,8 @@ package expr
 // (the call-site precondition of sort.Slice, checked on the comparator's real body).
 //@ func hashUnion
 //@   params u ignoreFields ignoreNames ignoreTags seen
-//@   locals h
 //@   property C13
+//@   locals sorted:[]*expr.NamedAttributeExpr h:string nat:*expr.NamedAttributeExpr
 //@   sortkey 1 e: e.Name
 //@   loop 1 invariant* sorted.input: forall i int, j int :: 0 <= i && i < j && j < len(ranged(1)) ==> !(ranged(1)[j].Name < ranged(1)[i].Name)
 //@   loop 1 invariant* all.alternatives: len(ranged(1)) == len(old(u.Values))
@@ -58,7 +58,7 @@ package expr
 // result is fixed by the sort (assumed library postcondition), not by the iteration.
 //@ func sortedKeys
 //@   params m
-//@   locals keys
+//@   locals keys:[]string k:string
 //@   loop 1 invariant own: fresh(keys)
 //@   modifies nothing
 
@@ -78,8 +78,8 @@ package expr
 
 //@ func MetaExpr.Dup
 //@   params m
-//@   locals d
 //@   property C13
+//@   locals d:expr.MetaExpr k:string v:[]string
 //@   ensures* fresh: result != nil && fresh(result)
 //@   loop 1 invariant made: d != nil && fresh(d)
 //@   modifies* nothing
@@ -102,8 +102,8 @@ package expr
 //@ macro memoInv(d) = d.uts == old(d.uts) && d.ats == old(d.ats) && (forall a *AttributeExpr :: old(inMap(d.ats, a)) ==> inMap(d.ats, a)) && (forall a *AttributeExpr :: inMap(d.ats, a) && !old(inMap(d.ats, a)) ==> fresh(a))
 //@ func (*dupper).DupType
 //@   params d t
-//@   locals res dp
 //@   property C13
+//@   locals actual:expr.Primitive actual#2:*expr.Array actual#3:*expr.Object res:*expr.Object nat:*expr.NamedAttributeExpr actual#4:*expr.Map actual#5:*expr.Union dp:expr.Union i:int nat#2:*expr.NamedAttributeExpr actual#6:expr.UserType u:expr.UserType ok:bool dp#2:expr.UserType dupAtt:*expr.AttributeExpr rt:*expr.ResultTypeExpr ok#2:bool
 //@   loop 1 invariant object: res != nil && sinceEntry(res) && (load(res).arr == 0 || sinceEntry(load(res))) && (forall i int :: 0 <= i && i < len(load(res)) ==> sinceEntry(load(res)[i])) && memoInv(d)
 //@   loop 2 invariant union: memoInv(d)
 //@   requires d != nil && d.uts != nil && d.ats != nil
@@ -155,8 +155,8 @@ package expr
 // length (the original's slice is not shared). (Its frame is that of DupAttribute and DupType, stated there.)
 //@ func DupAtt
 //@   params att
-//@   locals duppedBases dupper
 //@   property C13
+//@   locals dupper:*expr.dupper duppedBases:[]expr.DataType i:int b:expr.DataType res:*expr.AttributeExpr
 //@   ensures* fresh.node: result != nil && fresh(result) && result != att
 //@   ensures* bases.not.shared: len(result.Bases) == len(old(att.Bases)) && (len(old(att.Bases)) > 0 ==> fresh(result.Bases))
 //@   loop 1 invariant made: len(duppedBases) == len(old(att.Bases)) && (len(old(att.Bases)) > 0 ==> fresh(duppedBases)) && dupper != nil && fresh(dupper) && dupper.uts != nil && dupper.ats != nil && fresh(dupper.ats) && fresh(dupper.uts)
@@ -169,8 +169,8 @@ package expr
 // copyReqs: an element-wise copy (same kinds, names and scopes) made of fresh containers.
 //@ func copyReqs
 //@   params reqs
-//@   locals reqs2 req req2 schs
 //@   property C06
+//@   locals reqs2:[]*expr.SecurityExpr i:int req:*expr.SecurityExpr req2:*expr.SecurityExpr schs:[]*expr.SchemeExpr j:int sch:*expr.SchemeExpr
 //@   requires forall i int :: 0 <= i && i < len(reqs) ==> reqs[i] != nil && allocated(reqs[i])
 //@   requires forall i int, j int :: 0 <= i && i < len(reqs) && 0 <= j && j < len(reqs[i].Schemes) ==> reqs[i].Schemes[j] != nil && allocated(reqs[i].Schemes[j])
 //@   ensures* shape: len(result) == len(reqs) && (len(reqs) > 0 ==> fresh(result))
@@ -344,7 +344,7 @@ package expr
 // method's own mapping wins; no name is mapped twice).
 //@ func DupMappedAtt
 //@   params ma
-//@   locals nameMap reverseMap
+//@   locals nameMap:map[string]string reverseMap:map[string]string k:string v:string k#2:string v#2:string
 //@   ensures fresh: result != nil && fresh(result)
 //@   property C02
 //@   ensures* same.name.table: forall k String :: inMap(result.nameMap, k) == old(inMap(ma.nameMap, k)) && (inMap(result.nameMap, k) ==> result.nameMap[k] == old(ma.nameMap[k]))
@@ -366,8 +366,8 @@ package expr
 //@ macro distinctErrNames(s) = forall i int, j int :: 0 <= i && i < j && j < len(s) ==> s[i].Name != s[j].Name
 //@ func (*HTTPEndpointExpr).Prepare
 //@   params e
+//@   locals headers:*expr.MappedAttributeExpr cookies:*expr.MappedAttributeExpr params:*expr.MappedAttributeExpr p:*expr.HTTPServiceExpr c:*expr.HTTPEndpointExpr cpp:*expr.MappedAttributeExpr r:*expr.RouteExpr p#2:string a:*expr.AttributeExpr status:int methodErrors:map[string]struct{} v:*expr.HTTPErrorExpr me:*expr.ErrorExpr ok:bool found:bool v#2:*expr.HTTPErrorExpr v#3:*expr.HTTPErrorExpr se:*expr.ErrorExpr ok#2:bool found#2:bool resp:*expr.HTTPErrorExpr ae:*expr.HTTPErrorExpr r#2:*expr.HTTPResponseExpr er:*expr.HTTPErrorExpr
 //@   opt forget-before-loop 3
-//@   locals methodErrors me se
 //@   property C05
 //@   requires e != nil
 //   -- own = ranged(3): the errors the method maps itself, as they stand when the inheritance pass starts
@@ -403,8 +403,8 @@ package expr
 //@ smt (declare-fun isUnionSpec (Iface) Bool)
 //@ func validateRPCTags
 //@   params fields e
-//@   locals verr foundRPC
 //@   property C10
+//@   locals verr:*eval.ValidationErrors foundRPC:map[string]string nat:*expr.NamedAttributeExpr tag:string ok:bool a:string ok#2:bool
 //@   requires fields != nil
 //@   callspec (*AttributeExpr).FieldTag params a
 //@       ensures result0 == rpcTagOf(a) && result1 == hasRPCTag(a)
@@ -450,7 +450,6 @@ package expr
 //@   modifies nothing
 //@ func (*MappedAttributeExpr).Remap
 //@   params ma
-//@   locals elems
 //@   opt loopframes none
 //@   property C02
 //   -- "att:elem" records att -> elem in one table and elem -> att in the other, from the same split
@@ -464,8 +463,8 @@ package expr
 //@ macro distinctNames(s) = forall i int, j int :: 0 <= i && i < j && j < len(s) ==> s[i].Name != s[j].Name
 //@ func (*Object).Delete
 //@   params o n
-//@   locals index
 //@   property C02
+//@   locals index:int i:int nat:*expr.NamedAttributeExpr
 //@   requires o != nil
 //@   let before = old(load(o))
 //@   let after = load(o)
@@ -487,8 +486,8 @@ package expr
 // and examples are updated by calls that are not specified here).
 //@ func removeAttributes
 //@   params attr sub
-//@   locals nat
 //@   property C02
+//@   locals o:*expr.Object nat:*expr.NamedAttributeExpr
 //@   callspec removeAttribute params a name
 //@       requires* removes.the.mapped.attribute: a == attr && name == nat.Name
 //@       modifies all
@@ -571,6 +570,7 @@ package expr
 //@ func (*AttributeExpr).FieldTag
 //@   params a
 //@   property C10
+//@   locals tag:string found:bool
 //@   ensures* last.rpc.tag: (a == nil ==> !result1) && (a != nil ==> result1 == (inMap(a.Meta, "rpc:tag") && len(a.Meta["rpc:tag"]) >= 1) && (result1 ==> result0 == a.Meta["rpc:tag"][len(a.Meta["rpc:tag"]) - 1]))
 //@   modifies nothing
 
@@ -579,8 +579,8 @@ package expr
 // before the colon): that name, looked up in e.Params, decides, and that name is what is recorded.
 //@ func (*HTTPEndpointExpr).QueryParams
 //@   params e
-//@   locals at attName
 //@   property C14
+//@   locals obj:expr.Object v:*expr.ValidationExpr pp:map[string]struct{} r:*expr.RouteExpr pat:*expr.AttributeExpr p:string at:*expr.NamedAttributeExpr found:bool at#2:*expr.AttributeExpr n:string attName:string
 //@   callspec (*AttributeExpr).IsRequired params a n
 //@       requires* required.by.attribute.name: a == e.Params.AttributeExpr && n == splitHead(at.Name, ":")
 //@       modifies nothing
